@@ -23,7 +23,7 @@ def main():
                 "engine": "gosym",
                 "level_claimed": {"category": "model_checking",
                                   "text": spec.get("claim", LEVEL_TEXT),
-                                  "design_ref": spec.get("design_ref", "DESIGN.md section 6 (%s)" % pid)},
+                                  "design_ref": spec.get("design_ref", "DESIGN.md section 6 (%s) as designed, section 11 as built" % pid)},
                 "level_note": spec.get("note", "Trusted: go/ssa, the engine, z3/cvc5, and the environment models and library summaries of DESIGN.md section 3; bounds as written to the evidence file."),
                 "technique": spec.get("technique", "go/ssa symbolic execution + SMT"),
             })
